@@ -134,6 +134,19 @@ theorem C26_lock_discipline :
     Generated.BlockerLocks.tickGuarded = true := by
   decide
 
+/-- **Static obligation: the sweep blocklists inside its critical section** (by evaluation of the
+    regenerated table).  The model's `sweep` step decides "expired" and blocklists in ONE atomic step, and
+    `unflag` is another whole step — so "a peer that succeeded since it was flagged is never blocklisted"
+    needs that in the code no `Unflag` can run between the expiry test and the `Blocklist` call: every
+    `b.blocklister.Blocklist(…)` call is made in `block` with `mu` held (the same region as the reads of
+    `peers` and `sequence`, by `C26_lock_discipline`), and such a call exists.  The seeded change C26-3
+    (collect the expired peers under the lock, blocklist them after releasing it) yields a row
+    `⟨"block", "blocklister", "Blocklist", false⟩` and this fails. -/
+theorem C26_blocklist_inside_sweep_region :
+    (∀ x ∈ Generated.BlockerLocks.accesses, x.field = "blocklister" → x.locked = true ∧ x.fn = "block") ∧
+    (∃ x ∈ Generated.BlockerLocks.accesses, x.field = "blocklister" ∧ x.how = "Blocklist") := by
+  decide
+
 /-- **Mutual exclusion on the flag table**, from the regenerated table and the lock-set lemma
     (`Lemmas/BlockerLockSet.lean`): in the abstract program whose threads execute the extracted
     accesses in the lock state the extractor recorded, acquire `mu` only when it is free and never
